@@ -382,7 +382,10 @@ class ReadTarFS(FS):
         try:
             return self._directory_entries[_path].isdir()
         except KeyError:
-            return any(isbase(_path, name) for name in self._directory_entries)
+            # the root is a directory even when the archive is empty
+            return not _path or any(
+                isbase(_path, name) for name in self._directory_entries
+            )
 
     def isfile(self, path):
         _path = relpath(self.validatepath(path))
